@@ -6,7 +6,7 @@
      first_offset = dict.get(First).and_then(as_i64)? .try_into::<usize>() .map_err(NumericCast)?
      index_block  = content.get(..first_offset) .ok_or(InvalidOffset)?
      numbers_str  = str::from_utf8(index_block) .map_err(InvalidObjectStream)?
-     numbers      = numbers_str.split_whitespace().map(|n| u32::from_str(n).ok())
+     numbers      = numbers_str.split(|c| c.is_whitespace() || c == '\0').filter(non-empty).map(|n| u32::from_str(n).ok())
      len          = numbers.len() / 2 * 2
      n            = dict.get(N).and_then(as_i64)?              // only used for a warning, but must exist
      for each pair (id?, off?) of numbers[..len]:
@@ -18,8 +18,9 @@
 
    Rust-std behaviour modelled exactly because it decides the result:
    * str::from_utf8 (Model/Utf.v utf8_decode: well-formed UTF-8, no surrogates, no overlong forms);
-   * str::split_whitespace: splits at every char with the Unicode White_Space property
-     (U+0009-000D, 0020, 0085, 00A0, 1680, 2000-200A, 2028, 2029, 202F, 205F, 3000), no empty pieces;
+   * char::is_whitespace: the Unicode White_Space property (U+0009-000D, 0020, 0085, 00A0, 1680, 2000-200A,
+     2028, 2029, 202F, 205F, 3000); the index is split at these and at NUL (repaired: NUL is PDF white-space),
+     empty pieces are dropped;
    * u32::from_str: an optional '+', then one or more ASCII digits, value at most 2^32-1
      (a '-' is an invalid digit for an unsigned type; "+" alone and "" are errors). *)
 From LV Require Import Base.Bytes Base.Sx Model.Obj Model.Writer Model.Parser Model.Utf Gen.Lex.
@@ -36,12 +37,15 @@ Definition rust_is_whitespace (c : N) : bool :=
   ((0x2000 <=? c) && (c <=? 0x200A)) || (c =? 0x2028) || (c =? 0x2029) || (c =? 0x202F) ||
   (c =? 0x205F) || (c =? 0x3000).
 
-(* str::split_whitespace on code points: [cur] is the piece under construction, reversed *)
+(* the separator predicate of the split *)
+Definition index_separator (c : N) : bool := rust_is_whitespace c || (c =? 0).
+
+(* the split on code points, empty pieces dropped: [cur] is the piece under construction, reversed *)
 Fixpoint split_ws_aux (s : list N) (cur : list N) : list (list N) :=
   match s with
   | [] => match cur with [] => [] | _ => [rev cur] end
   | c :: t =>
-    if rust_is_whitespace c then
+    if index_separator c then
       match cur with [] => split_ws_aux t [] | _ => rev cur :: split_ws_aux t [] end
     else split_ws_aux t (c :: cur)
   end.
